@@ -188,3 +188,31 @@ Definition c05_file_diag (c : c05file) : N :=
       | None => 9
       end
   end.
+
+(* ------------------------------------------------------------------ the two order decisions, pair by pair *)
+(* One case = one ordered pair of elements of one body (or of options of one element) of a printed file and what
+   the real sourceElements.Less / optionsByLocation.Less answered for it (hooks protoprint.VerifElementsLess /
+   VerifOptionsLess).  The element is given by its kind, source line and index; the typeOrder is the model's
+   (ekey on an element of that kind).  Every printed file of a run contributes (no token budget). *)
+Definition order_of_kind (k : N) : N :=
+  let kz := {| k_line := 0; k_idx := 0 |} in
+  match k with
+  | 1 => snd (fst (ekey (DOneof kz no_cmt [] [] [])))
+  | 2 => snd (fst (ekey (DMsg kz no_cmt [] [] [])))
+  | 3 => snd (fst (ekey (DEnum kz no_cmt [] [] [])))
+  | 4 => snd (fst (ekey (DService kz no_cmt [] [] [])))
+  | _ => snd (fst (key0 kz))       (* fields, enum values, methods *)
+  end.
+
+Inductive c05order :=
+| CLess (ka la ia kb lb ib : N) (obs : bool)
+| COptLess (la ia : N) (fa : qname) (lb ib : N) (fb : qname) (obs : bool).
+
+Definition probe_opt (l i : N) (f : qname) : dopt :=
+  {| o_key := {| k_line := l; k_idx := i |}; o_full := f; o_name := {| pn_abs := false; pn_name := f |}; o_val := RMsg [] |}.
+
+Definition c05_order_check (c : c05order) : bool :=
+  match c with
+  | CLess ka la ia kb lb ib obs => Bool.eqb (key_less (la, order_of_kind ka, ia) (lb, order_of_kind kb, ib)) obs
+  | COptLess la ia fa lb ib fb obs => Bool.eqb (opt_less (probe_opt la ia fa) (probe_opt lb ib fb)) obs
+  end.
